@@ -34,6 +34,7 @@ type Case struct {
 	PoolShim   bool     `json:"pool_shim"`
 	Nest       int      `json:"nest"`              // Transaction blocks around the operation (0..3)
 	ViaSession bool     `json:"via_session"`       // Session{Context} instead of WithContext
+	ViaConn    bool     `json:"via_connection,omitempty"` // the operation runs inside h.Connection(func(tx) …), on one dedicated connection
 	Sibling    int      `json:"sibling,omitempty"` // 1..5: other handles bound to another context are derived from the operation's handle first and abandoned
 	Warm       bool     `json:"warm"`              // run the operation once before (statements already prepared / schemas parsed)
 	HookStmts  bool     `json:"hook_stmts"`        // model hooks issue a statement of their own through the *gorm.DB they are given
@@ -75,6 +76,7 @@ func (Prop) Gen(r *core.Rand, tier string) interface{} {
 	if r.Chance(35) {
 		c.Sibling = r.Range(1, 5)
 	}
+	c.ViaConn = r.Chance(12)
 	switch x := r.Intn(10); {
 	case x < 5:
 		w := ops.GenWOp(r, ops.WriteKinds)
@@ -127,6 +129,7 @@ func (Prop) Shrink(ci interface{}) []interface{} {
 		func(v *Case) bool { x := v.Prepare; v.Prepare = false; return x },
 		func(v *Case) bool { x := v.ViaSession; v.ViaSession = false; return x },
 		func(v *Case) bool { x := v.Sibling != 0; v.Sibling = 0; return x },
+		func(v *Case) bool { x := v.ViaConn; v.ViaConn = false; return x },
 		func(v *Case) bool { x := v.Warm; v.Warm = false; return x },
 		func(v *Case) bool { x := v.HookStmts; v.HookStmts = false; return x },
 	} {
@@ -249,7 +252,14 @@ func (p Prop) exec(c *Case, cancelAt int) (*execInfo, error) {
 			}
 			return db.Transaction(func(tx *gorm.DB) error { return nest(tx, n-1) })
 		}
-		if err := nest(h, c.Nest); err != nil && res.Err == nil {
+		run := func(db *gorm.DB) error { return nest(db, c.Nest) }
+		var err error
+		if c.ViaConn {
+			err = h.Connection(run)
+		} else {
+			err = run(h)
+		}
+		if err != nil && res.Err == nil {
 			res.Err = err
 		}
 		if pool != nil && pool.CancelSeq != 0 {
